@@ -239,8 +239,9 @@ impl StorageEngine {
         }
         
         let stored_value = StoredValue::with_expiration(Value::String(value), expires_in);
-        let expires_at = Instant::now() + expires_in;
-        shard_guard.expiring_keys.insert(key.clone(), expires_at);
+        if let Some(expires_at) = stored_value.metadata.expires_at {
+            shard_guard.expiring_keys.insert(key.clone(), expires_at);
+        }
         shard_guard.data.insert(key.clone(), stored_value);
         shard_guard.mark_modified(&key);
         
@@ -356,7 +357,9 @@ impl StorageEngine {
         
         if let Some(stored_value) = shard_guard.data.get_mut(key) {
             stored_value.metadata.set_expiration(expires_in);
-            shard_guard.expiring_keys.insert(key.to_vec(), Instant::now() + expires_in);
+            if let Some(expires_at) = stored_value.metadata.expires_at {
+                shard_guard.expiring_keys.insert(key.to_vec(), expires_at);
+            }
             shard_guard.mark_modified(key);
             Ok(true)
         } else {
